@@ -49,25 +49,78 @@ theorem spanDigits_append (ds rest : Str) (hd : ∀ d ∈ ds, isDigit d = true) 
     simp only [List.cons_append, spanDigits, hd d (by simp), if_true]
     rw [ih (fun x hx => hd x (by simp [hx]))]
 
-theorem parseNat_natDigits (n : Nat) (rest : Str) (hr : Term rest) : parseNat (natDigits n ++ rest) = .ok (n, rest) := by
-  rcases Nat.eq_zero_or_pos n with rfl | hn
-  · rw [natDigits_zero]
+/-- what follows does not start with a digit -/
+def NoDigit (rest : Str) : Prop := ∀ c r, rest = c :: r → isDigit c = false
+
+theorem Term.noDigit {rest : Str} (h : Term rest) : NoDigit rest := fun c r e => (h c r e).1
+
+theorem spanDigits_append' (ds rest : Str) (hd : ∀ d ∈ ds, isDigit d = true) (hr : NoDigit rest) :
+    spanDigits (ds ++ rest) = (ds, rest) := by
+  induction ds with
+  | nil =>
     cases rest with
-    | nil => simp [parseNat]
-    | cons c r =>
-      obtain ⟨_, h1, h2, h3⟩ := hr c r rfl
-      simp [parseNat, h1, h2, h3]
+    | nil => rfl
+    | cons c r => simp [spanDigits, hr c r rfl]
+  | cons d ds ih =>
+    simp only [List.cons_append, spanDigits, hd d (by simp), if_true]
+    rw [ih (fun x hx => hd x (by simp [hx]))]
+
+theorem parseNat_natDigits (n : Nat) (rest : Str) (hr : NoDigit rest) : parseNat (natDigits n ++ rest) = .ok (n, rest) := by
+  rcases Nat.eq_zero_or_pos n with rfl | hn
+  · rw [natDigits_zero]; simp [parseNat]
   · obtain ⟨d, ds, e, h1, h2⟩ := natDigits_head n hn
     have hall := natDigits_digits n
     have hv := digitsVal_natDigits n
     rw [e] at hall hv ⊢
-    have hsp := spanDigits_append ds rest (fun x hx => hall x (by simp [hx])) hr
+    have hsp := spanDigits_append' ds rest (fun x hx => hall x (by simp [hx])) hr
     simp only [List.cons_append, parseNat]
-    rw [if_neg (by omega), if_pos ⟨h1, h2⟩, hsp]
-    cases rest with
-    | nil => simp [hv]
-    | cons c r =>
-      obtain ⟨_, h1, h2, h3⟩ := hr c r rfl
-      simp [h1, h2, h3, hv]
+    rw [if_neg (by omega), if_pos ⟨h1, h2⟩, hsp, hv]
+
+/-! ### fraction and exponent -/
+
+theorem scanFrac_none (rest : Str) (h : ∀ c r, rest = c :: r → c ≠ 46) : scanFrac rest = ([], rest) := by
+  unfold scanFrac
+  split
+  · next d r => exact absurd rfl (h 46 _ rfl)
+  · rfl
+
+theorem scanFrac_some (fr rest : Str) (hne : fr ≠ []) (hd : ∀ d ∈ fr, isDigit d = true) (hr : NoDigit rest) :
+    scanFrac (46 :: (fr ++ rest)) = (fr, rest) := by
+  cases fr with
+  | nil => exact absurd rfl hne
+  | cons d ds =>
+    have := spanDigits_append' (d :: ds) rest hd hr
+    simp only [List.cons_append] at this ⊢
+    simp only [scanFrac, hd d (by simp), if_true, this]
+
+theorem scanExp_none (rest : Str) (h : ∀ c r, rest = c :: r → c ≠ 101 ∧ c ≠ 69) : scanExp rest = (none, rest) := by
+  unfold scanExp
+  split
+  · next e sg r2 =>
+    have := h e _ rfl
+    rw [if_neg (by omega)]
+  · rfl
+
+theorem scanExp_some (e : Nat) (sg : Option Nat) (ds rest : Str) (he : e = 101 ∨ e = 69)
+    (hsg : sg = none ∨ sg = some 43 ∨ sg = some 45) (hne : ds ≠ []) (hd : ∀ d ∈ ds, isDigit d = true) (hr : NoDigit rest) :
+    scanExp (e :: (sg.toList ++ (ds ++ rest))) = (some (e, sg, ds), rest) := by
+  have hsp := spanDigits_append' ds rest hd hr
+  cases ds with
+  | nil => exact absurd rfl hne
+  | cons d ds' =>
+    have hdd : isDigit d = true := hd d (by simp)
+    have hd' : 48 ≤ d ∧ d ≤ 57 := by simpa [isDigit] using hdd
+    rcases hsg with rfl | rfl | rfl
+    · simp only [Option.toList_none, List.nil_append, List.cons_append, scanExp, he, if_true]
+      rw [if_neg (by omega)]
+      simp only [hdd, if_true]
+      simp only [List.cons_append] at hsp
+      rw [hsp]
+    · simp only [Option.toList_some, List.cons_append, List.nil_append, scanExp, he, if_true, true_or, headIs', hdd]
+      simp only [List.cons_append] at hsp
+      rw [hsp]
+    · simp only [Option.toList_some, List.cons_append, List.nil_append, scanExp, he, if_true, or_true, headIs', hdd]
+      simp only [List.cons_append] at hsp
+      rw [hsp]
 
 end Uberjob.Json
